@@ -352,6 +352,8 @@ def main():
     cfgs.append((3, 3, 2, True, False, True, None))
     cfgs.append((3, 4, 2, True, False, False, 1))     # Petrov-Galerkin: 3 equations, 4 dofs, 2 fixed dofs, 1 eliminated row
     cfgs.append((4, 4, 2, True, False, False, 2))
+    # dense matrices with a set of eliminated rows that differs from the constrained dofs (Petrov-Galerkin use)
+    cfgs.append((3, 4, 2, False, False, False, 1)); cfgs.append((3, 3, 1, False, False, False, 1)); cfgs.append((4, 4, 2, False, True, False, 2))
     if thorough:
         cfgs.append((4, 5, 3, False, False, False, 2)); cfgs.append((5, 5, 3, True, False, False, 3))
     run.bounds = {'system size': 'n,m <= 4 (quick) / 5 (thorough)', 'constrained dofs': '0..n in every order', 'variants': 'dense and sparse A, scalar/array values and rhs, elim_rows'}
